@@ -353,7 +353,20 @@ _public_ int m_map_put(m_map_t *m, const char *key, void *value) {
     M_PARAM_ASSERT(value);
     
     /* Find a place to put our value */
-    return hashmap_put(m, m->flags & M_MAP_KEY_DUP ? mem_strdup(key) : key, value);
+    if (!(m->flags & M_MAP_KEY_DUP)) {
+        return hashmap_put(m, key, value);
+    }
+    
+    /* The duplicated key belongs to the map only once it is stored in a new entry */
+    char *dup = mem_strdup(key);
+    M_ALLOC_ASSERT(dup);
+    const size_t old_length = m->length;
+    int ret = hashmap_put(m, dup, value);
+    if (ret != 0 || m->length == old_length) {
+        /* Failed, or an existing entry (that keeps its own key) was updated */
+        memhook._free(dup);
+    }
+    return ret;
 }
 
 /*
